@@ -1,6 +1,6 @@
-import GrVerif.Proofs.HeapStream3
+import GrVerif.Proofs.ShapeStream
 /-!
-# C03 — every returned segment exposes a well-formed glyph stream   (partial: the rule-action engine)
+# C03 — every returned segment exposes a well-formed glyph stream   (partial: left-to-right pipeline without bidi/justification)
 
 The segment is modelled as a heap of slot records linked by indices (`Model/Seg.lean`); `Linked s l` says that the list
 `l` is the glyph stream: `first`/`last` are its ends, `next`/`prev` link exactly its consecutive members, no slot occurs
@@ -11,6 +11,13 @@ Proved here for **every** action program (any instruction list over the opcodes 
 outcome: finished, died, slot offset out of bounds) and the garbage collection that follows it: the stream is again a
 well-formed doubly linked list whose length is the advertised glyph count (`action_stream_wf`), hence a walk along
 `next` from `first` visits exactly `numGlyphs` distinct slots, ends at `last`, and `prev` inverts `next` (`stream_walk`).
+
+Since the stream invariant also carries the high-water mark and the cursor (`Proofs/PassStream.lean`), the same holds
+for the **whole modelled pipeline** and no longer only for one action under side conditions: `shape_stream_wf` – for every
+font (any passes, state tables, rules, constraint and action programs), every text and every fuel, a segment returned by
+`shape` has a well-formed stream, with the client-visible consequences of `stream_walk`.  The steps are
+`initSeg_wf` (`read_text`), `runFSM_spec` (the matcher only puts cursor positions into the slot map), `findNDoRule_spec`,
+`adjustSlot_spec`, `ruleLoop_spec`, `runPass_spec`, `runRange_spec`, `reassoc_wf`.
 
 Not covered by a theorem (correspondence and end-to-end predicate only): `reverseSlots`, the bidi pass, `linkClusters`,
 index assignment (`associateChars` assigns 0..n-1 in stream order – modelled in `Model/Assoc.lean` as list positions),
@@ -90,6 +97,39 @@ theorem action_then_walk {is : List Instr} {dl : Bool} {mr : Nat} {data : List N
   obtain ⟨l', h1, h2⟩ := action_stream_wf hl hc hh hmap e
   have := stream_walk h1 h2
   exact ⟨l', this.1, this.2.1, this.2.2.1, this.2.2.2.1⟩
+
+/-- **C03 (whole pipeline).** Whatever the font – any number of passes, any state tables, rules, constraint and action
+programs – and whatever the text: a segment returned by the modelled pipeline (`read_text`, substitution passes,
+`associateChars`, positioning passes) exposes a well-formed stream: following `next` from `first` visits `numGlyphs` distinct
+slots and ends at `last`, and `prev` is the exact inverse of `next`. -/
+theorem shape_stream_wf (font : Pass.Font) (text : List Nat) (fuel : Nat) {c : Ctx} {ci : List Assoc.CI}
+    (e : Pass.shape font text fuel = .ok (some (c, ci))) :
+    ∃ l, walk c.seg (l.length + 1) c.seg.first = l ∧ l.Nodup ∧ (l.length : Int) = c.seg.numGlyphs ∧ c.seg.last = l.getLast? ∧
+      (∀ a b x y, l = a ++ x :: y :: b → (c.seg.get x).next = some y ∧ (c.seg.get y).prev = some x) ∧
+      (∀ x, l.head? = some x → (c.seg.get x).prev = none) ∧ (∀ x, l.getLast? = some x → (c.seg.get x).next = none) ∧
+      (∀ x ∈ l, (c.seg.get x).deleted = false ∧ (c.seg.get x).copied = false) := by
+  obtain ⟨l, h1, h2⟩ := Pass.shape_wf font text fuel e
+  have := stream_walk h1 h2
+  exact ⟨l, this.1, this.2.1, this.2.2.1, this.2.2.2.1, this.2.2.2.2.1, this.2.2.2.2.2.1, this.2.2.2.2.2.2, h2.live⟩
+
+/-! non-vacuity: fonts whose rules insert and delete slots, shaped by the model (evaluated by the kernel) -/
+section examples
+open Pass
+def exPass (action : List Nat) : PassT := { maxLoop := 5, minPre := 0, maxPre := 0, numColumns := 1, numTransition := 1, numStates := 2, numSuccess := 1, cols := #[0xFFFF, 0xFFFF, 0xFFFF, 0], starts := #[0], trans := #[#[1]], ruleMap := #[[0]], rules := #[{ sort := 1, pre := 0, constraint := [], action := action }] }
+def exFont (action : List Nat) : Font := { passes := #[exPass action], ipos := 1, classes := #[], gattr := #[], gadv := #[], cmap := id }
+def exGids (r : Except String (Option (Ctx × List Assoc.CI))) : List Nat :=
+  match r with
+  | .ok (some r) => (walk r.1.seg 100 r.1.seg.first).map fun i => (r.1.seg.get i).gid
+  | _ => [999]
+/-- a slot is inserted in front of every glyph 3 (`insert; put_glyph <empty class>; next; next; ret_zero`) -/
+example : exGids (shape (exFont [31, 59, 0, 7, 25, 25, 49]) [3, 4, 3] 50) = [0, 3, 4, 0, 3] := by decide +kernel
+/-- glyph 3 is deleted: `delete; next; ret_zero` -/
+example : exGids (shape (exFont [32, 25, 49]) [3, 4, 3] 50) = [4] := by decide +kernel
+end examples
+
+/-- every run of passes, from any well-formed segment (exported for the audit) -/
+theorem passes_keep_stream (passes : Array Pass.PassT) (c : Ctx) (lo hi fuel : Nat) (h : Pass.WF c.seg) {c' : Ctx}
+    (e : Pass.runRange passes c lo hi fuel = .ok (some c')) : Pass.WF c'.seg := Pass.runRange_spec passes c lo hi fuel h e
 
 /-- each single opcode keeps the invariant (the induction step of the above, exported for the audit) -/
 theorem every_opcode_keeps_stream : OpsPreserve PS := ops_PS
